@@ -2,6 +2,7 @@ package c20
 
 import (
 	"context"
+	"errors"
 	"fmt"
 	"runtime"
 	"slices"
@@ -18,7 +19,7 @@ import (
 	"verifharness/vkit"
 )
 
-const rule = "random schedules under virtual time (testing/synctest): 0..12 channels (pre-closed, closing at distinct integer milliseconds, or never), set built with Add (with duplicates) / Clear / Merge, " +
+const rule = "random schedules under virtual time (testing/synctest): 0..12 channels (pre-closed, closing at distinct integer milliseconds, or never; in a quarter of the schedules also a nil member), set built with Add (with duplicates) / Clear / Merge, contexts of four kinds (cancel, cancel with cause, deadline, deadline with cause), " +
 	"settle time 0 or k+0.5 ms, cancellation at a distinct millisecond, up to 3 consecutive Wait calls on the same set; return time, returned set, error and Has() of every channel are compared with the model, "+
 	"and the slices returned by earlier calls are re-read after every later call; " +
 	"non-trivial = the set was non-empty at the call; distinct = hash of the schedule"
@@ -119,6 +120,16 @@ func runSchedule(r *vkit.Run, t *testing.T, idx int) {
 			}
 		}
 		ws.Merge(other)
+		// a nil channel is a legal member that never closes (e.g. an unset watch variable)
+		hasNil := rng.IntN(4) == 0
+		if hasNil {
+			if rng.IntN(2) == 0 {
+				ws.Add(nil)
+			} else {
+				var unset <-chan struct{}
+				ws.Add(unset, unset)
+			}
+		}
 
 		closedBy := func(at time.Duration) []int { // members closed at or before 'at' (relative to t0)
 			var out []int
@@ -157,6 +168,9 @@ func runSchedule(r *vkit.Run, t *testing.T, idx int) {
 					first = c
 				}
 			}
+			if hasNil {
+				anyMember = true
+			}
 			if anyMember {
 				nontrivial = true
 			}
@@ -165,10 +179,27 @@ func runSchedule(r *vkit.Run, t *testing.T, idx int) {
 				cd.CancelMS = 1 + rng.IntN(150)
 			}
 			settle := time.Duration(cd.SettleUS) * time.Microsecond
-			ctx, cancel := context.WithCancel(context.Background())
+			// the context is a plain cancel context, one cancelled with a cause, or one with a deadline (with or without a cause):
+			// Wait reports ctx.Err() in every case
 			cancelAt := time.Duration(-1)
 			if cd.CancelMS >= 0 {
 				cancelAt = start + time.Duration(cd.CancelMS)*time.Millisecond + 250*time.Microsecond
+			}
+			var ctx context.Context
+			var cancel func()
+			cause := errors.New("shutting down")
+			switch kind := rng.IntN(4); {
+			case kind == 0 && cancelAt >= 0:
+				ctx, cancel = context.WithTimeout(context.Background(), cancelAt-start)
+			case kind == 1 && cancelAt >= 0:
+				ctx, cancel = context.WithTimeoutCause(context.Background(), cancelAt-start, cause)
+			case kind == 2:
+				c, cf := context.WithCancelCause(context.Background())
+				ctx, cancel = c, func() { cf(cause) }
+			default:
+				ctx, cancel = context.WithCancel(context.Background())
+			}
+			if cancelAt >= 0 {
 				wg.Add(1)
 				go func(d time.Duration) {
 					defer wg.Done()
@@ -221,7 +252,14 @@ func runSchedule(r *vkit.Run, t *testing.T, idx int) {
 			// returned channels: added, closed, no duplicates
 			gotIdx := []int{}
 			seen := map[<-chan struct{}]bool{}
+			if hasNil && !ws.Has(nil) {
+				fail("membership", "after call %d: the nil member is gone from the set", ci)
+			}
 			for _, ch := range got {
+				if ch == nil {
+					fail("not-closed", "call %d returned the nil member", ci)
+					continue
+				}
 				if seen[ch] {
 					fail("duplicate", "call %d returned a channel twice", ci)
 				}
